@@ -116,6 +116,16 @@ def run(tier, replay=None):
         for c, r in zip(acases, ares):
             if r['status'] == 'ok':
                 images.append((c['id'], struct.pack('<I', r['hdr']) + bytes(r['img']) + bytes(r['dbg']), [65, 66, 255, 0, 67], None))
+        # files that hold less than their header says (the last word without its zero upper bytes, as the bootstrapped compiler xhexb writes
+        # them; an image cut in the middle): the bytes a file does not contain are zero, whatever the host's memory holds
+        A = asmlib
+        tail = [A.ref('BR', 'go'), A.lab('sp'), A.data(150000), A.lab('go'), A.ref('LDAM', 'lastw'), A.ref('LDBM', 'mid'), A.opr('ADD'), A.ref('LDBM', 'sp'), A.imm('STAI', 2), A.imm('LDAC', 0), A.opr('SVC'),
+                A.lab('mid'), A.data(0), A.data(0), A.data(0), A.lab('lastw'), A.data(5)]
+        tr = asmlib.run_cases(aexe, [{'id': 'short', 'src': asmlib.src_of(tail), 'prog': tail}], d, tag="c12t")[0]
+        if tr['status'] == 'ok':
+            whole = struct.pack('<I', tr['hdr']) + bytes(tr['img'])
+            for cut in (1, 2, 3, 8, 14):
+                images.append(('short:cut%d' % cut, whole[:-cut], [], None))
         # pass 1: uncut, untraced, clean -> instruction counts
         def sim(cases, perturb, tag):
             cf = os.path.join(d, tag + ".cases"); of = os.path.join(d, tag + ".out")
@@ -150,7 +160,7 @@ def run(tier, replay=None):
             hdr = struct.unpack('<I', b[:4])[0]
             ws = []
             for k in range(hdr):
-                w = struct.unpack('<i', b[4 + 4 * k: 8 + 4 * k])[0]
+                w = struct.unpack('<i', (b[4 + 4 * k: 8 + 4 * k] + bytes(4))[:4])[0]      # BinFormat: bytes the file lacks are zero
                 if w:
                     ws.append([k, w])
             imgwords[iid] = ws
